@@ -185,7 +185,10 @@ var c02SeqRoutes = []string{"/n/{x}/e", "/a/?{x}", "/{x}/{y}/{z}", "/n/?{m: **}"
 	"/{x}/{r: /[an]+/}/e", "/{x}/{y}/n", "/{x}/{m: **}",
 	// four bind-carrying segments deep: a regex segment below a regex segment below two placeholders, and a
 	// placeholder sibling of the inner one (what a sibling is called is no business of a registered route)
-	"/{x}/{y}/{k: /a|n/}/{i: /[an]+/}/e", "/{x}/{y}/{k: /a|n/}/{l}", "/{x}/{y}/{k: /a|n/}/{j: /e+/}"}
+	"/{x}/{y}/{k: /a|n/}/{i: /[an]+/}/e", "/{x}/{y}/{k: /a|n/}/{l}", "/{x}/{y}/{k: /a|n/}/{j: /e+/}",
+	// two routes that go on differently below one match-all segment in the middle (how many segments it took for
+	// an earlier request is no business of the next)
+	"/{m: **}/n", "/{m: **}/e/{x}", "/a/{m: **}/n/{x}/{y}", "/a/{m: **}/e/{x}"}
 
 type c02Ans struct {
 	found  bool
@@ -276,7 +279,7 @@ func c02SeqReplay(p *route.Parser, c c02Case) (bool, string) {
 // every ordered pair of paths on every tree of one or two routes, compared with a fresh tree.
 func c02Sequences(r *core.Run, p *route.Parser) {
 	// (%2561 decodes once to %61: a value that a second decoding would change)
-	paths := pathsOver([]string{"a", "n", "e", "%2561"}, 3, []string{"/a/a-a/n", "/a/a-/n", "/n/a/e/e", "/a/%2561-%2561/n", "/n/ae-a", "/n/ae-n/e", "/n/ne-a/e", "/n/ne-%2561", "/n/ae-n", "/a/ea", "/a/ean", "/e/ea", "/e/na", "/a/an", "/a/ea/n", "/ea/a/n", "/an/na/n", "/a/n/a/an/e", "/e/e/n/a/e", "/a/n/a/e", "/a/n/n/ee", "/e/a/a/na/e", "/a/a/a/a"})
+	paths := pathsOver([]string{"a", "n", "e", "%2561"}, 3, []string{"/a/a-a/n", "/a/a-/n", "/n/a/e/e", "/a/%2561-%2561/n", "/n/ae-a", "/n/ae-n/e", "/n/ne-a/e", "/n/ne-%2561", "/n/ae-n", "/a/ea", "/a/ean", "/e/ea", "/e/na", "/a/an", "/a/ea/n", "/ea/a/n", "/an/na/n", "/a/n/a/an/e", "/e/e/n/a/e", "/a/n/a/e", "/a/n/n/ee", "/e/a/a/na/e", "/a/a/a/a", "/a/a/a/e/n", "/a/a/n/e/n", "/a/n/e/n/e", "/a/a/n/n/e/a"})
 	r.Bounds["sequence_routes"] = c02SeqRoutes
 	r.Bounds["sequence_paths"] = len(paths)
 	n := len(c02SeqRoutes)
